@@ -32,7 +32,8 @@ ASSUMPTIONS = [
 ]
 OBLIGATIONS = {"dscore:m=1": 20, "dscore:m>=2": 50, "dscore:perfect": 20,
                "dscore:inverse": 20, "dscore:heavy-ties": 20,
-               "dscore:identical-ens": 10, "dscore:wide-range": 20, "dscore:fine-lattice": 10, "eps:non-default": 20, "ad:near-duplicates": 10, "ad:reject:several-outside": 10, "ensrank:ref": 50, "pit:random": 30,
+               "dscore:identical-ens": 10, "dscore:wide-range": 20, "dscore:fine-lattice": 10, "eps:non-default": 20,
+               "dscore:constant-members": 5, "dscore:definition": 50, "ad:near-duplicates": 10, "ad:reject:several-outside": 10, "ensrank:ref": 50, "pit:random": 30,
                "pit:plain": 30, "pit:sudo": 30, "cvm": 50, "ad": 50, "ad:reject": 30,
                "alpha": 20, "n=1-sample": 5}
 
@@ -86,7 +87,8 @@ def ensrank_ref(sim):
 # ---------------------------------------------------------------- generator ----
 def gen_forecasts(rng, it, tier):
     kinds = ["random", "heavy", "identical", "perfect", "inverse", "m1", "random",
-             "perfect-ens", "inverse-ens", "wide", "perfect", "inverse", "fine"]
+             "perfect-ens", "inverse-ens", "wide", "perfect", "inverse", "fine",
+             "const-members"]
     kind = kinds[it % len(kinds)]
     n = int(rng.integers(2, 41 if tier == "thorough" else 25))
     m = int(rng.integers(1, 13))
@@ -101,7 +103,15 @@ def gen_forecasts(rng, it, tier):
     usewide = kind == "wide" or (kind in ("perfect", "inverse") and (it // len(kinds)) % 2)
     if usewide:
         tags.append("dscore:wide-range")
-    if kind == "fine":
+    if kind == "const-members":
+        # every forecast is an ensemble of identical members (m >= 2), several
+        # forecasts share the same value
+        m = max(m, 2)
+        sim = np.repeat(rng.choice(lat[3:9], size=n)[:, None], m, axis=1)
+        obs = rng.permutation(np.arange(n) / 2.0 - 2.0)        # distinct observations
+        tags.append("dscore:constant-members")
+        kind = "random"
+    elif kind == "fine":
         # distinct in binary64 and 30 x the tie tolerance apart, but equal once rounded
         # to single precision
         fine = 1024.0 + np.arange(-6, 7) / 32768.0
@@ -212,6 +222,15 @@ def run_dscore_case(ctx, case, rng=None):
         # correlation undefined: nothing is promised
         ctx.extra["dscore.degenerate-ranks"] += 1
         return
+    if m > 1 and len(np.unique(obs)) == n:
+        # the score itself: rank correlation between the (untied) observations and the
+        # Weigel-Mason ensemble ranks, mapped to [0, 1]
+        orank = np.argsort(np.argsort(obs)).astype(float)
+        with np.errstate(all="ignore"):
+            dref = (float(np.corrcoef(orank, rr)[0, 1]) + 1) / 2
+        ctx.tag("dscore:definition")
+        ctx.check("dscore.definition", abs(D - dref) <= 1e-12, "dscore|definition", case,
+                  lambda: {"D": D, "from_reference_ranks": dref, "ranks_ref": rr.tolist()})
     if case.get("eps", 1e-6) != 1e-6:
         De = call(m_.dscore, obs, sim, eps=float(case["eps"]))
         ctx.api("dscore")
